@@ -375,13 +375,14 @@ Proof.
 Qed.
 
 Variable out_eqb : Out -> Out -> bool.
-Hypothesis out_eqb_refl : forall y, out_eqb y y = true.
 
+(* the comparison of results need only be reflexive on what the threads observed *)
 Theorem every_schedule_is_linearizable st ts s' (final : St -> bool) :
   frun (start st ts) s' -> finished s' -> final (sigma s') = true ->
+  clean_obs out_eqb (map hist (ths s')) ->
   Lin step out_eqb final st (map hist (ths s')).
 Proof.
-  intros Hrun Hfin Hf.
+  intros Hrun Hfin Hf Hclean.
   assert (Hstart : forall j u, nth_error (ths (start st ts)) j = Some u -> ph u = Idle /\ hist u = []).
   { intros j u Hj. unfold start in Hj. cbn [ths] in Hj. rewrite nth_error_map in Hj.
     destruct (nth_error ts j); [|discriminate]. injection Hj as <-. split; reflexivity. }
@@ -403,7 +404,7 @@ Proof.
     - rewrite (Hh i t t' Et Et'). destruct (Hstart i t Et) as [Hp Hhist]. unfold pending. rewrite Hp, Hhist. cbn [app].
       apply (nth_error_nth _ _ []). exact Hy.
     - apply nth_error_None in Et. apply nth_error_lt in Et'. lia. }
-  rewrite E3. eapply atomic_executions_are_linearizable; eauto.
+  rewrite E3 in *. eapply atomic_executions_with_clean_results_are_linearizable; eauto.
 Qed.
 
 End Red.
